@@ -65,7 +65,7 @@ def run(
     Raises TlcError on parse errors / crashes (not on property violations)."""
     work = keep_dir or scratch_dir("tlc-")
     meta = os.path.join(work, "meta")
-    cmd = ["java", "-XX:+UseParallelGC", "-Xmx8g"] + (jvm or []) + ["-cp", JAR_CP, "tlc2.TLC"]
+    cmd = ["java", "-XX:+UseParallelGC", "-Xmx8g", "-Xss32m"] + (jvm or []) + ["-cp", JAR_CP, "tlc2.TLC"]
     cmd += ["-workers", str(workers), "-metadir", meta, "-noGenerateSpecTE"]
     cfg_path = cfg if os.path.isabs(cfg) else os.path.join(SPEC_DIR, "cfg", cfg)
     cmd += ["-config", cfg_path]
